@@ -31,6 +31,7 @@ type opSpec struct {
 	Kind  string `json:"kind,omitempty"`  // sub: prompt | slow | stalled
 	N     int    `json:"n,omitempty"`     // bc: number of consecutive Broadcast calls
 	After int    `json:"after,omitempty"` // the op may start only after this many Broadcast calls were issued
+	Pre   bool   `json:"pre,omitempty"`   // sub: the subscriber's context is cancelled before Subscribe is called
 }
 
 type program struct {
@@ -156,6 +157,10 @@ func runSchedule(b, hb *tv.Batch, prog program, seed int64) result {
 				ch := make(chan int)
 				go reader(o.S, o.Kind, ch)
 				rec.ev("sub_call", tv.M{"s": o.S, "kind": o.Kind, "c": ci + 1})
+				if o.Pre {
+					rec.ev("cancel", tv.M{"s": o.S})
+					cancel()
+				}
 				c.cur = ctl.Go(fmt.Sprintf("c%d:sub", ci), func() {
 					bc.Subscribe(ctx, ch)
 					rec.ev("sub_ret", tv.M{"s": o.S, "c": ci + 1})
@@ -353,6 +358,7 @@ func TestCheck(t *testing.T) {
 	CA := func(s int) opSpec { return opSpec{Op: "cancel", S: s} }
 	CL := opSpec{Op: "close"}
 	after := func(o opSpec, n int) opSpec { o.After = n; return o }
+	pre := func(o opSpec) opSpec { o.Pre = true; return o }
 	staged := []program{
 		// two broadcasters, two subscribers: one common order
 		{Clients: [][]opSpec{{S(1, "prompt"), S(2, "slow"), BC(2)}, {BC(2)}}},
@@ -369,6 +375,12 @@ func TestCheck(t *testing.T) {
 		{Clients: [][]opSpec{{S(1, "prompt"), S(2, "stalled"), S(3, "slow"), S(4, "prompt"), BC(12), BC(1)}, {after(CA(1), 12)}, {after(CA(2), 12)}}},
 		{Clients: [][]opSpec{{S(1, "prompt"), S(2, "stalled"), S(3, "prompt"), BC(12)}, {after(BC(1), 12)}, {after(CA(2), 13)}}},
 		{Clients: [][]opSpec{{S(1, "slow"), S(2, "stalled"), S(3, "slow"), BC(12)}, {after(BC(1), 12)}, {after(CA(2), 13)}}},
+		// a subscriber whose context has ended before Subscribe runs must not leave anything behind that later Broadcasts trip over
+		{Clients: [][]opSpec{{pre(S(1, "prompt")), S(2, "prompt"), BC(12), BC(1)}}},
+		{Clients: [][]opSpec{{S(1, "slow"), pre(S(2, "prompt")), pre(S(3, "prompt")), BC(12)}, {after(BC(2), 6)}}},
+		// Subscribe and Broadcast after Close has returned: nothing may be delivered any more
+		{Clients: [][]opSpec{{S(1, "prompt"), BC(1), CL, S(2, "prompt"), BC(2), S(3, "prompt"), BC(1)}}},
+		{Clients: [][]opSpec{{S(1, "slow"), BC(2)}, {after(CL, 2), S(2, "prompt"), BC(2)}}},
 		// subscriber churn: a staying subscriber keeps receiving
 		{Clients: [][]opSpec{{S(1, "prompt"), S(2, "prompt"), CA(1), S(3, "prompt"), CA(3), BC(2)}}},
 		{Clients: [][]opSpec{{S(1, "prompt"), S(2, "slow"), S(3, "prompt"), CA(2), S(4, "prompt"), CA(4), BC(1), CA(1), BC(1)}}},
@@ -376,7 +388,7 @@ func TestCheck(t *testing.T) {
 		{Clients: [][]opSpec{{S(1, "slow"), S(2, "prompt"), BC(3)}, {CL}, {CL}}},
 		{Clients: [][]opSpec{{S(1, "slow"), S(2, "slow"), BC(4)}, {after(CL, 3)}, {after(CL, 3)}, {after(CL, 4)}}},
 	}
-	nStaged := ev.Pick(25, 400)
+	nStaged := ev.Pick(18, 400)
 	nRandProg := ev.Pick(150, 5000)
 	nSchedPer := ev.Pick(3, 6)
 	inconcl := 0
@@ -532,6 +544,19 @@ func backToBack(b *tv.Batch, round int) {
 	b.Ev("close_call", nil)
 	bc.Close()
 	b.Ev("close_ret", nil)
+	// every other round: one more Subscribe and Broadcast straight after Close has returned (a closed broadcaster
+	// must ignore both; a forwarder started now could still hand the value over)
+	if round%2 == 1 {
+		late := make(chan int)
+		chs = append(chs, late)
+		k++
+		b.Ev("sub_call", tv.M{"s": k, "kind": "prompt"})
+		bc.Subscribe(context.Background(), late)
+		b.Ev("sub_ret", tv.M{"s": k})
+		b.Ev("bc_call", tv.M{"b": nv + 1, "v": nv + 1})
+		bc.Broadcast(nv + 1)
+		b.Ev("bc_ret", tv.M{"b": nv + 1})
+	}
 	// blocking readers (a forwarder hands a value over only to a reader that is waiting), each gives up after 3 ms
 	var mu sync.Mutex
 	var wg sync.WaitGroup
